@@ -185,6 +185,11 @@ func c17hist(c *Ctx) {
 				case r.P(6):
 					rl.title = gen.Pick(r, []string{"qu\"ote", "back\\slash", "ctl\x01x", "uni\u00e9"}) + fmt.Sprint(r.Intn(4))
 				}
+				if r.P(6) {
+					// short titles in other scripts: fewer characters than the widest tag, more bytes than characters
+					rl.title = gen.Pick(r, []string{"n\u00e9", "\u65e5\u672c", "\u00e9", "\u00fc\u00df", "\u0416\u0443\u043a", "\U0001f600x"}) + gen.Pick(r, []string{"", "", "1", "\u00e9"})
+					c.R.Add("short_non_ascii_titles_tried", 1)
+				}
 				if r.P(8) {
 					// a title that is a decimal number: often the numeric value of ANOTHER level (names and values are
 					// different namespaces)
@@ -201,8 +206,8 @@ func c17hist(c *Ctx) {
 				var odesc []string
 				if r.P(50) {
 					rl.hasTags = true
-					t := strings.ToUpper(rl.title) + "#####"
-					rl.tags = [6]string{"", t[:1], t[:2], t[:3], t[:4], t[:5]}
+					t := []rune(strings.ToValidUTF8(strings.ToUpper(rl.title), "?") + "#####") // tags are cut at character boundaries
+					rl.tags = [6]string{"", string(t[:1]), string(t[:2]), string(t[:3]), string(t[:4]), string(t[:5])}
 					if r.P(30) {
 						rl.tags[2] = "" // a missing width falls back to the computed tag
 					}
